@@ -270,7 +270,7 @@ Lemma conv_int_range sg bits s v : conv (TInt sg bits) s = Some v ->
   exists neg n, v = VInt neg n /\
     (if neg then sg = true /\ 0 < n /\ n <= 2 ^ (bits - 1) else n < (if sg then 2 ^ (bits - 1) else 2 ^ bits)).
 Proof.
-  unfold conv.
+  unfold conv, conv_int.
   set (p := match s with 43 :: r => (false, r) | 45 :: r => if sg then (true, r) else (false, s) | _ => (false, s) end).
   assert (Hp : fst p = true -> sg = true).
   { subst p. destruct s as [|b r]; [discriminate|]. destruct (N.eq_dec b 43) as [->|]; [discriminate|]. destruct (N.eq_dec b 45) as [->|].
